@@ -1,6 +1,7 @@
 import Amgcl.Model.LockstepBiCGStabL
 import Amgcl.Model.LockstepIDRs
 import Amgcl.Properties.C12c
+import Amgcl.Proofs.LockstepIDRsCtor
 /-!
 # C12 (continued) — distributed BiCGStab(L) and IDR(s)
 
@@ -26,10 +27,12 @@ Theorems (for every rank count `≥ 1`, every contiguous partition, empty ranks 
   `G[i]`, `P[i]` …).
 * `dist_bicgstabl_rank_consistent`, `dist_idrs_rank_consistent` — hence any two ranks return the same
   `(iters, resid)` or throw the same exception, and hold identical small systems.
-* The equality of the programs' SERIAL semantics with the C05 models `Solver.BiCGStabL.run` / `Solver.IDRs.run`
+* `dist_idrs_shadow_eq_makeP` — the constructor program's serial semantics is PROVED to be `Solver.IDRs.makeP`
+  (`Proofs/LockstepIDRsCtor.lean`), so every rank holds its part of `makeP raw`.
+* For the two `operator()` programs the equality of the SERIAL semantics with the C05 models `Solver.BiCGStabL.run` / `Solver.IDRs.run`
   (`prog_eq_run`, proved for the other solvers in C12c) is NOT proved here: it is evaluated by the kernel on concrete
   runs below (`L = 1, 2, 3`, `s = 1, 2, 3`, both sides, `convex`, accurate update, smoothing, replacement, exceptions;
-  constructor = `makeP`).  The serial semantics of the programs is itself a statement-by-statement rendering of the
+  constructor + call).  The serial semantics of the programs is itself a statement-by-statement rendering of the
   C++ (every instruction carries its source line).
 -/
 namespace Amgcl.C12
@@ -192,6 +195,24 @@ theorem dist_idrs_ctor_eq_serial (A : CRS K) (P : Vec K → Vec K) (C : DCtx K) 
     exact ⟨ds', g1, fun i => g4 _⟩
   · obtain ⟨ds', g1, _, g3, _, g5⟩ := dist_idrs_prog_eq_serial A P C hS (Lockstep.IDRs.ctorThenSolve prm sqrt eps) raw ws f x0 hsz
     exact ⟨ds', g1, g3, g5⟩
+
+/-- **`dist_idrs_shadow_eq_makeP`**: the serial semantics of the constructor program is PROVED equal to the C05 model
+`Solver.IDRs.makeP` (`Lockstep.IDRs.ctor_eq_makeP`); hence after the distributed constructor every rank holds its part
+of `makeP raw`, the serially orthonormalised assembled raw vectors, whatever the ranks drew from their generators. -/
+theorem dist_idrs_shadow_eq_makeP (A : CRS K) (P : Vec K → Vec K) (C : DCtx K) (hS : Setup A P C)
+    (prm : Solver.IDRs.Params K) (sqrt : K → K) (eps : K) (raw : FArr (Vec K)) (ws : Solver.IDRs.Work K) (f x0 : Vec K)
+    (hsz : IDRsSizes C.part.sum raw ws f x0) :
+    ∃ ds', drun C (Lockstep.IDRs.ctorProg prm.s sqrt) (distribute C.part (Lockstep.IDRs.initState raw ws f x0))
+        = some ds' ∧
+      ∀ i, ds'.vec (Lockstep.IDRs.vP i)
+        = splitVec ((Solver.IDRs.makeP (innerProductSerial C.conj) sqrt prm.s raw) i) C.part := by
+  obtain ⟨ds', g1, g2⟩ := (dist_idrs_ctor_eq_serial A P C hS prm sqrt eps raw ws f x0 hsz).1
+  refine ⟨ds', g1, fun i => ?_⟩
+  have h := (Lockstep.IDRs.ctor_eq_makeP A P (innerProductSerial C.conj) sqrt prm.s
+    (Lockstep.IDRs.initState raw ws f x0)).1
+  rw [Lockstep.IDRs.shadowOf_init] at h
+  rw [g2 i, ← h]
+  rfl
 
 /-- **rank consistency of IDR(s)**: any two ranks return the same `(iters, resid)` or throw the same exception, and
 hold the same small systems `M`, `f`, `c` — although each rank seeded its generator with its own rank number. -/
